@@ -621,6 +621,245 @@ def check_types(rep, proj, kernels):
             rep.ok("C18.types", f.site, f.fq, f"arity and inferred return type fit '{f.njit_sig}'")
 
 
+# ----------------------------------------------------------------------------- definite assignment
+def _nonneg_tables(module_tree):
+    """Module-level names bound to a literal list / np.array([...]) of non-negative integers (loop bounds read from such a table are >= 0)."""
+    out = set()
+    for st in module_tree.body:
+        if isinstance(st, ast.Assign) and len(st.targets) == 1 and isinstance(st.targets[0], ast.Name):
+            v = st.value
+            if isinstance(v, ast.Call) and ast.unparse(v.func) in ("np.array", "numpy.array") and v.args:
+                v = v.args[0]
+            if isinstance(v, (ast.List, ast.Tuple)) and v.elts and all(isinstance(e, ast.Constant) and isinstance(e.value, int) and e.value >= 0 for e in v.elts):
+                out.add(st.targets[0].id)
+    # a table written to after its definition is not a constant
+    for n in ast.walk(module_tree):
+        if isinstance(n, (ast.Assign, ast.AugAssign)):
+            for t in (n.targets if isinstance(n, ast.Assign) else [n.target]):
+                if isinstance(t, ast.Subscript) and isinstance(t.value, ast.Name):
+                    out.discard(t.value.id)
+    return out
+
+
+def _int_literal(e):
+    try:
+        v = ast.literal_eval(ast.unparse(e)) if not any(isinstance(x, (ast.Name, ast.Call, ast.Attribute, ast.Subscript)) for x in ast.walk(e)) else None
+        if v is None and not any(isinstance(x, (ast.Name, ast.Call, ast.Attribute, ast.Subscript)) for x in ast.walk(e)):
+            v = eval(compile(ast.Expression(e), "<lit>", "eval"), {"__builtins__": {}})  # pure integer arithmetic such as 0-1
+        return v if isinstance(v, int) and not isinstance(v, bool) else None
+    except Exception:
+        try:
+            if not any(isinstance(x, (ast.Name, ast.Call, ast.Attribute, ast.Subscript)) for x in ast.walk(e)):
+                v = eval(compile(ast.Expression(e), "<lit>", "eval"), {"__builtins__": {}})
+                return v if isinstance(v, int) and not isinstance(v, bool) else None
+        except Exception:
+            return None
+        return None
+
+
+def _loop_runs(st, nonneg):
+    """Does this for-loop provably execute its body at least once?"""
+    it = st.iter
+    if isinstance(it, (ast.List, ast.Tuple)) and it.elts:
+        return True
+    if isinstance(it, ast.Call) and isinstance(it.func, ast.Name) and it.func.id == "range" and 1 <= len(it.args) <= 3:
+        lits = [_int_literal(a) for a in it.args]
+        if all(v is not None for v in lits):
+            return len(range(*lits)) > 0
+        # range(T[i], -1, -1) with T a table of non-negative integers: T[i], ..., 0
+        if len(it.args) == 3 and lits[1] == -1 and lits[2] == -1 and isinstance(it.args[0], ast.Subscript) and isinstance(it.args[0].value, ast.Name) \
+                and it.args[0].value.id in nonneg:
+            return True
+    return False
+
+
+def definite_assignment(fn, nonneg=frozenset(), optimistic=False):
+    """Reads of a local variable that is not assigned on every path reaching the read.  In the interpreter that read raises
+    UnboundLocalError; numba compiles the function (the variable has other definitions) and reads a zero-initialised slot: the two
+    modes disagree without any diagnostic.  Flow-sensitive over if / for / while / try / with / return; a loop body may run zero times.
+    -> [(name, line, definite)]: definite = unassigned on every path (no assignment precedes the read at all)."""
+    a = fn.args
+    params = {x.arg for x in a.posonlyargs + a.args + a.kwonlyargs} | ({a.vararg.arg} if a.vararg else set()) | ({a.kwarg.arg} if a.kwarg else set())
+    own = [n for n in ast.walk(fn) if n is not fn]
+
+    def in_nested_scope(n):
+        p = getattr(n, "_parent", None)
+        while p is not None and p is not fn:
+            if isinstance(p, (ast.FunctionDef, ast.AsyncFunctionDef, ast.Lambda, ast.ClassDef, ast.ListComp, ast.SetComp, ast.DictComp, ast.GeneratorExp)):
+                return True
+            p = getattr(p, "_parent", None)
+        return False
+
+    locals_ = {n.id for n in own if isinstance(n, ast.Name) and isinstance(n.ctx, ast.Store) and not in_nested_scope(n)}
+    locals_ |= {n.name for n in own if isinstance(n, (ast.FunctionDef, ast.ClassDef)) and getattr(n, "_parent", None) is not None and not in_nested_scope(n)}
+    declared_global = {nm for n in own if isinstance(n, (ast.Global, ast.Nonlocal)) for nm in n.names}
+    locals_ -= declared_global
+    problems = []
+    ever = set()  # assigned somewhere textually before (for the definite / may distinction)
+
+    def reads(expr, defined):
+        for n in ast.walk(expr):
+            if isinstance(n, ast.Name) and isinstance(n.ctx, ast.Load) and n.id in locals_ and n.id not in params and n.id not in defined:
+                # names bound by an enclosing comprehension / lambda inside this expression are their own scope
+                p, shadow = getattr(n, "_parent", None), False
+                while p is not None and p is not expr:
+                    if isinstance(p, (ast.ListComp, ast.SetComp, ast.DictComp, ast.GeneratorExp)):
+                        if any(isinstance(t, ast.Name) and t.id == n.id for g in p.generators for t in ast.walk(g.target)):
+                            shadow = True
+                    if isinstance(p, ast.Lambda) and any(x.arg == n.id for x in p.args.args):
+                        shadow = True
+                    p = getattr(p, "_parent", None)
+                if not shadow:
+                    problems.append((n.id, n.lineno, n.id not in ever))
+
+    def bind(target, defined):
+        for n in ast.walk(target):
+            if isinstance(n, ast.Name) and isinstance(n.ctx, ast.Store):
+                defined.add(n.id)
+                ever.add(n.id)
+            elif isinstance(n, (ast.Subscript, ast.Attribute)) and n is target:
+                reads(n, defined)
+
+    def block(stmts, defined):
+        """-> set of names defined after the block, or None if every path through it leaves (return / raise / continue / break)"""
+        defined = set(defined)
+        for st in stmts:
+            if isinstance(st, ast.Assign):
+                reads(st.value, defined)
+                for t in st.targets:
+                    bind(t, defined)
+            elif isinstance(st, ast.AugAssign):
+                reads(st.value, defined)
+                if isinstance(st.target, ast.Name):
+                    if st.target.id in locals_ and st.target.id not in params and st.target.id not in defined:
+                        problems.append((st.target.id, st.lineno, st.target.id not in ever))
+                    defined.add(st.target.id)
+                    ever.add(st.target.id)
+                else:
+                    reads(st.target, defined)
+            elif isinstance(st, ast.AnnAssign):
+                if st.value is not None:
+                    reads(st.value, defined)
+                    bind(st.target, defined)
+            elif isinstance(st, (ast.Return, ast.Raise)):
+                for v in ast.iter_child_nodes(st):
+                    if isinstance(v, ast.expr):
+                        reads(v, defined)
+                return None
+            elif isinstance(st, (ast.Continue, ast.Break)):
+                return None
+            elif isinstance(st, ast.If):
+                reads(st.test, defined)
+                d1 = block(st.body, defined)
+                d2 = block(st.orelse, defined) if st.orelse else set(defined)
+                if d1 is None and d2 is None:
+                    return None
+                defined = d2 if d1 is None else (d1 if d2 is None else d1 & d2)
+            elif isinstance(st, (ast.For, ast.While)):
+                if isinstance(st, ast.For):
+                    reads(st.iter, defined)
+                    inner = set(defined)
+                    bind(st.target, inner)
+                else:
+                    reads(st.test, defined)
+                    inner = set(defined)
+                # second pass semantics: names assigned later in the body are visible at its top from the second iteration on, but
+                # not on the first: analyse the body once with what precedes the loop
+                d_body = block(st.body, inner)
+                if st.orelse:
+                    block(st.orelse, defined)
+                # after the loop: the body may not have run - unless it provably runs (or, in the optimistic pass, by assumption)
+                if d_body is not None and not any(isinstance(x, (ast.Break, ast.Continue)) for x in ast.walk(st)) and \
+                        (optimistic or (isinstance(st, ast.For) and _loop_runs(st, nonneg))):
+                    defined = d_body
+            elif isinstance(st, ast.With):
+                for it in st.items:
+                    reads(it.context_expr, defined)
+                    if it.optional_vars is not None:
+                        bind(it.optional_vars, defined)
+                d = block(st.body, defined)
+                if d is None:
+                    return None
+                defined = d
+            elif isinstance(st, ast.Try):
+                d0 = block(st.body, defined)
+                outs = []
+                for h in st.handlers:
+                    hd = set(defined)
+                    if h.name:
+                        hd.add(h.name)
+                    outs.append(block(h.body, hd))
+                if st.orelse and d0 is not None:
+                    d0 = block(st.orelse, d0)
+                alive = [d for d in [d0] + outs if d is not None]
+                if not alive:
+                    return None
+                defined = set.intersection(*alive) if alive else defined
+                if st.finalbody:
+                    d = block(st.finalbody, defined)
+                    if d is None:
+                        return None
+                    defined = d
+            elif isinstance(st, (ast.FunctionDef, ast.AsyncFunctionDef, ast.ClassDef)):
+                defined.add(st.name)
+                ever.add(st.name)
+            elif isinstance(st, (ast.Import, ast.ImportFrom)):
+                for al in st.names:
+                    defined.add((al.asname or al.name).split(".")[0])
+            elif isinstance(st, ast.Expr):
+                reads(st.value, defined)
+            elif isinstance(st, (ast.Assert,)):
+                reads(st.test, defined)
+            elif isinstance(st, ast.Delete):
+                for t in st.targets:
+                    if isinstance(t, ast.Name):
+                        defined.discard(t.id)
+            elif isinstance(st, ast.Match):
+                reads(st.subject, defined)
+                outs = []
+                for c in st.cases:
+                    cd = set(defined)
+                    for n in ast.walk(c.pattern):
+                        if isinstance(n, (ast.MatchAs, ast.MatchStar)) and n.name:
+                            cd.add(n.name)
+                    outs.append(block(c.body, cd))
+                alive = [d for d in outs if d is not None]
+                defined = (set.intersection(*alive) & defined) if alive else defined
+        return defined
+
+    block(fn.body, set(params))
+    seen = set()
+    out = []
+    for name, line, definite in problems:
+        if (name, line) not in seen:
+            seen.add((name, line))
+            out.append((name, line, definite))
+    return out
+
+
+def check_definite_assignment(rep, proj):
+    n = 0
+    for m in proj.modules.values():
+        for f in m.functions.values():
+            if not f.is_njit or isinstance(f.node, ast.Lambda):
+                continue
+            n += 1
+            nonneg = _nonneg_tables(m.tree)
+            probs = definite_assignment(f.node, nonneg, optimistic=True)  # even if every loop body runs: a branch reads what it never assigned
+            if probs:
+                rep.bad("C18.assigned", f.site, f.fq,
+                        "; ".join(f"`{nm}` is read at line {ln} on a path where it was never assigned" + (" (no assignment precedes the read)" if d else "") for nm, ln, d in probs[:3])
+                        + ": the interpreter raises UnboundLocalError there, the compiled kernel reads a zero-initialised slot and returns a number", key="assigned")
+                continue
+            maybe = definite_assignment(f.node, nonneg, optimistic=False)
+            if maybe:
+                rep.undecided("C18.assigned", f.site, f.fq, "; ".join(f"`{nm}` (line {ln}) is assigned only inside a loop whose body is not shown to run at least once" for nm, ln, d in maybe[:3]), key="assigned")
+            else:
+                rep.ok("C18.assigned", f.site, f.fq, "every local is assigned on every path before it is read (loops assumed possibly empty unless their range is a non-empty literal "
+                       "or counts down from a table of non-negative integers)", key="assigned")
+    rep.floor("compiled bodies checked for definite assignment", n, 120)
+
+
 def run(rep, proj, tier):
     rep.explanation = (
         "Decides the clauses of C18 that are static by nature and invisible to a NUMBA_DISABLE_JIT=1 test suite: "
@@ -641,3 +880,4 @@ def run(rep, proj, tier):
     kernels = check_closed_and_frozen(rep, proj)
     check_types(rep, proj, kernels)
     check_python_callers(rep, proj)
+    check_definite_assignment(rep, proj)
